@@ -714,6 +714,82 @@ def item_registration(ctx, am):
         okp = is_call(pth, 'ItemPath::join') and len(pth[2]) == 2 and strip(pth[2][0])[0] == 'arg'
         oke = cat[0] == 'agg' and cat[1].endswith('ItemCategory::Extern') and vis[0] == 'agg' and vis[1].endswith('Visibility::Public') and okp
         dete = 'category %s visibility %s path %s' % (show(cat)[:30], show(vis)[:30], okp)
+    # size and alignment of an extern type are the integers written in its attributes, converted and nothing else
+    CONV = re.compile(r'(::with_context|::context|::ok_or|::ok_or_else|TryInto<.*>>::try_into|TryFrom<.*>>::try_from|convert::Into<.*>>::into|convert::From<.*>>::from|Deref>::deref|::clone|::copied|::cloned|::unwrap_or_default)$')
+
+    def impure(e, d=0, seen_=()):
+        e = strip(e)
+        if d > 14:
+            return ['(too deep)']
+        if e[0] == 'try':
+            return impure(e[1], d + 1, seen_)
+        if e[0] == 'payload':
+            return [] if e[2] == 'IntLiteral' else impure(e[1], d + 1, seen_) if e[2] in ('Some', 'Ok', 'Continue') else [show(e)[:50]]
+        if e[0] == 'agg' and e[1].endswith('Option::None'):
+            return []
+        if e[0] == 'agg' and e[1].endswith('Option::Some'):
+            return impure(e[2][0][1], d + 1, seen_)
+        if e[0] == 'call' and e[2] and CONV.search(e[1]):
+            return impure(e[2][0], d + 1, seen_)
+        if e[0] == 'var' and isinstance(e[1], int) and e[1] not in seen_:
+            out_ = []
+            ds = [x for x in am.init_of(e[1]) if strip(x) != e]
+            if not ds:
+                return [show(e)[:40]]
+            for x in ds:
+                out_ += impure(x, d + 1, seen_ + (e[1],))
+            return out_
+        return [show(e)[:50]]
+    if len(exts_) == 1:
+        st_ = strip(exts_[0][1]['state'])
+        res_ = strip(st_[2][0][1]) if st_[2] else ('x',)
+        flds = dict(res_[2]) if res_[0] == 'agg' else {}
+        bad_ = {k_: impure(expand(am, flds[k_])) if k_ in flds else ['(missing)'] for k_ in ('size', 'alignment')}
+        ctx.ob(['C02', 'C01', 'C13'], 'R-SLP', 'AM|extern-type-size-align', not any(bad_.values()),
+               'size and alignment registered for an extern type are the integer literals of its `size` / `align` attributes, only converted: %s' % {k_: v_[:2] for k_, v_ in bad_.items() if v_}, loc(am.span))
+    # the module object stored is built from the path and the parsed module it was given, with all of its extern values, impl
+    # blocks and backend blocks
+    mn = [c for c in am.calls(lambda r: r['path'] and r['path'].endswith('Module::new'))]
+    okm, detm = False, 'expected one Module::new call, found %d' % len(mn)
+    if len(mn) == 1 and len(mn[0]['term']['args']) == 5:
+        a_ = [strip(expand(am, am.expr_of_operand(x))) for x in mn[0]['term']['args']]
+        def clone_of(e):
+            e = strip(e)
+            while e[0] == 'call' and e[2] and re.search(r'(::clone|Deref>::deref|::as_ref|::borrow|::as_slice)$', e[1]):
+                e = strip(e[2][0])
+            return e
+        p0, p1 = clone_of(a_[0]), clone_of(a_[1])
+        ev_ = a_[2]
+        while ev_[0] == 'try' or (ev_[0] == 'call' and ev_[2] and re.search(r'(Iterator::collect|FromIterator<.*>>::from_iter)$', ev_[1])):
+            ev_ = strip(ev_[1] if ev_[0] == 'try' else ev_[2][0])
+        src_ = None
+        if is_call(ev_, 'Iterator::map') and len(ev_[2]) == 2:
+            src_ = clone_of(ev_[2][0])
+            while src_[0] == 'call' and src_[2] and re.search(r'(slice::<impl \[T\]>::iter|IntoIterator>::into_iter|::iter)$', src_[1]):
+                src_ = clone_of(src_[2][0])
+        okev = src_ is not None and src_ == ('field', p1, 'extern_values')
+        raw2 = strip(am.expr_of_operand(mn[0]['term']['args'][2]))
+        if not okev and raw2[0] == 'var' and (is_call(ev_, 'Vec::new') or is_call(ev_, 'Vec::with_capacity') or is_call(ev_, 'Vec::<T>::new') or is_call(ev_, 'Vec::<T>::with_capacity')):
+            # loop form: one push per entry of module.extern_values, on every trip that does not end in Err
+            from r_panic import cycle_without
+            pu = [c for c in am.calls(lambda r: r['path'] and re.search(r'Vec::<T, A>::push$', r['path'])) if strip(am.expr_of_operand(c['term']['args'][0])) == raw2]
+            if len(pu) == 1:
+                L = innermost_loop(am, pu[0]['block'])
+                while L and 'grammar::Attribute>' in (loop_source(am, L)[0] or ''):
+                    outer = [L2 for L2 in am.loops() if L[0] in L2[1] and L2[0] != L[0]]
+                    L = min(outer, key=lambda l_: len(l_[1])) if outer else None
+                sty, src2 = loop_source(am, L) if L else (None, None)
+                s2 = clone_of(src2) if src2 else ('x',)
+                while s2[0] == 'call' and s2[2] and re.search(r'(slice::<impl \[T\]>::iter|IntoIterator>::into_iter|::iter)$', s2[1]):
+                    s2 = clone_of(s2[2][0])
+                okev = bool(L) and sty is not None and re.match(r"^std::slice::Iter<'_, grammar::ExternValue>$", sty) is not None and s2 == ('field', p1, 'extern_values') \
+                    and not cycle_without(am, L[1], L[0], {pu[0]['block']})
+        oki = clone_of(a_[3]) == ('field', p1, 'impls')
+        okb = clone_of(a_[4]) == ('field', p1, 'backends')
+        okm = p0[0] == 'arg' and p0[1] == 3 and p1[0] == 'arg' and p1[1] == 2 and okev and oki and okb
+        detm = 'path %s ast %s extern values %s impls %s backends %s' % (show(p0)[:20], show(p1)[:20], okev, oki, okb)
+    ctx.ob(['C14', 'C19', 'C05', 'C15', 'C17'], 'R-SLP', 'AM|module-construction', okm,
+           'the module stored is Module::new(<path given>, <parsed module given>, <one extern value per entry of its extern_values>, its impls, its backends): %s' % detm, loc(am.span))
     ctx.ob(['C14', 'C13', 'C17'], 'R-SLP', 'AM|extern-type-registration', oke,
            'an extern type is registered as a Resolved, Extern (never emitted), public item under <module path>::<its name>: %s' % dete, loc(am.span))
 
